@@ -114,6 +114,9 @@ Definition cc_parse (s : list nat) : cc_res :=
   | [] => CCErr
   end.
 
+Definition punct_name : list nat := [112; 117; 110; 99; 116].                                   (* punct *)
+Definition punct_list : list nat := [33; 45; 47; 58; 45; 64; 91; 45; 96; 123; 45; 126].         (* !-/:-@[-`{-~ *)
+
 (* ---- extract_bracket_expr: the text of the bracket expression ("[" included) and what follows ---- *)
 Fixpoint scan_bracket (fuel : nat) (s : list nat) (expr : list nat) : option (list nat * list nat) :=
   match fuel with 0 => None | S f =>
@@ -129,6 +132,8 @@ Fixpoint scan_bracket (fuel : nat) (s : list nat) (expr : list nat) : option (li
               match find2 d ch_rb s2 with
               | None => None
               | Some i => if length s2 <? i + 2 then None
+                          else if (d =? ch_colon) && list_eqb (firstn i s2) punct_name
+                          then scan_bracket f (skipn (i + 2) s2) (expr ++ punct_list)   (* [:punct:] spelled out: the POSIX class *)
                           else scan_bracket f (skipn (i + 2) s2) (expr1 ++ [d] ++ firstn (i + 2) s2)
               end
             else scan_bracket f s1 expr1          (* the next character is examined normally *)
@@ -208,14 +213,15 @@ Fixpoint parse_bre (fuel : nat) (ci : bool) (t : list nat) : option re :=
       else option_map (cons (RSingle (ci_eq ci c))) (parse_bre f ci t1)
   end end.
 
-(* Pattern::new + Pattern::matches.  0 = no match, 1 = match, 2 = the regex would not compile (a panic
+(* Pattern::new + Pattern::matches (the pieces are compiled one by one and matched by [nfa]; their texts put together are the
+   regular expression of glob_to_regex, which [parse_bre] reads back piece by piece).  0 = no match, 1 = match, 2 = the regex would not compile (a panic
    in Pattern::new), 3 = outside the modelled fragment (collating symbols, equivalence classes) *)
 Definition glob_match (ci : bool) (p s : list nat) : nat :=
   match glob_to_regex (S (length p)) p [] with
   | GNever => 0
   | GUnsupported => 3
   | GText t => match parse_bre (S (length t)) ci t with
-               | Some r => if is_match r s then 1 else 0
+               | Some r => if nfa r s then 1 else 0
                | None => 2
                end
   end.
